@@ -50,6 +50,13 @@ def gen_doc(rng, uid, indent):
         real = [pad + 'Freeform %d.' % uid, '', pad + '>>> print(%d)' % uid, pad + '%d' % uid, '']
         parts = (skipped + [pad + 'Prose in between.', ''] + real) if rng.random() < 0.6 else (real + skipped)
         return '\n'.join(parts), 0, True
+    if r < 0.44:
+        # a google block that holds no prompt at all (a shell command, prose) and prompts elsewhere in the docstring: one google
+        # doctest (the block), one freeform doctest (the prompts), and under auto the google answer - never both
+        block = rng.choice([['$ python -m tool run %d' % uid], ['see the tutorial, section %d' % uid, 'and the notes there'], ['python -c "import this"  # %d' % uid]])
+        lines = [pad + 'Mixed %d.' % uid, '', pad + rng.choice(GOOGLE_LABELS[:4])] + [pad + '    ' + b for b in block] + ['']
+        tail = [pad + 'In code this reads', '', pad + '>>> print(%d)' % uid, pad + '%d' % uid, '']
+        return '\n'.join((lines + tail) if rng.random() < 0.7 else ([pad + 'Mixed %d.' % uid, ''] + tail + lines[2:])), 1, True
     if r < 0.6:
         return '\n'.join([pad + 'Freeform %d.' % uid, '', pad + '>>> print(%d)' % uid, pad + '%d' % uid]), 0, True
     nblocks = rng.randint(4, 14) if rng.random() < 0.05 else rng.randint(1, 3)
